@@ -14,9 +14,10 @@ import (
 
 func init() {
 	fw.Register(&fw.Property{
-		ID:     "C04",
-		Level:  "exploration",
-		Jitter: true,
+		ID:         "C04",
+		Level:      "exploration",
+		Jitter:     true,
+		RaceSample: true,
 		Rule: "genomes with abstract annotations of 1-6 coding features (strand +/-, 1-3 segments with boundaries inside codons, codon_start 1-3, overlapping/abutting/slippage joins, named and (GFF3) unnamed CDS with named mature_protein_region children, features touching position 1 and L) rendered to GenBank or GFF3; queries with A/C/G/T and IUPAC substitutions, gaps, '?' and insertions; FASTA form (variants) and SAM form (sam variants); --append-snps on and off; reference by ID or from the annotation; " +
 			"distinct non-trivial = distinct (format, form, strands, segment counts, unnamed/children present, and which of {intergenic nuc, synonymous nuc in CDS, aa, aa with 2-3 SNPs, resolved ambiguity codon, unnamed-only position, position in two features} occurred)",
 		Assumptions: []string{"every generated named CDS ends in a real stop codon (GenBank /translation convention) and the reference is A/C/G/T only",
